@@ -54,9 +54,13 @@ fn get_block_stack_table_removal_multiplicand<E: FieldElement<BaseField = Felt>>
     } else {
         main_trace.addr(i + 1)
     };
-    let is_loop = main_trace.is_loop_flag(i);
+    // in a RESPAN row the hasher registers hold the operation groups of the next batch, not the
+    // flags which an END row keeps there; the row of a span batch is never a loop, call or syscall
+    let is_loop = if is_respan { ZERO } else { main_trace.is_loop_flag(i) };
+    let is_call_or_syscall =
+        !is_respan && (main_trace.is_call_flag(i) == ONE || main_trace.is_syscall_flag(i) == ONE);
 
-    let elements = if main_trace.is_call_flag(i) == ONE || main_trace.is_syscall_flag(i) == ONE {
+    let elements = if is_call_or_syscall {
         let parent_ctx = main_trace.ctx(i + 1);
         let parent_fmp = main_trace.fmp(i + 1);
         let parent_stack_depth = main_trace.stack_depth(i + 1);
